@@ -397,6 +397,16 @@ class Interp(object):
       policy = h(node, st) if h else None
       if policy == 'skip':
         yield (st, None)
+      elif policy == 'body':
+        # exactly one iteration of the body (used by must-raise scenarios)
+        s1 = st.copy()
+        if isinstance(node, ast.For):
+          self.assign(node.target, Sym('elem(%s)' % norm(node.iter)), s1)
+        for s, sig in self.block(node.body, s1):
+          if sig is None or sig[0] in ('break', 'continue'):
+            yield (s, None)
+          else:
+            yield (s, sig)
       elif policy == 'once':
         yield (st.copy(), None)
         s1 = st.copy()
